@@ -100,14 +100,36 @@ def check_concurrent(exe, v, cases, workdir, stats):
             st["struct_checks"][nm] = st["struct_checks"].get(nm, 0) + 1
         if not o["struct"].get("bronson_no_removable_routing_node", (True, ""))[0]:
             st["routing_leftover_after_concurrent"] += 1
-        bad = split_quiescent(o) if fam.startswith("split") else C15.quiescent_checks(c, o, kind, fam, concurrent=True)
         cnt = expected_by_count(ops, fam)
-        it = [int(kv.split(":")[0]) for kv in o["mon"].get("iter", [])]
+        mon = o["mon"]
+        it = [int(kv.split(":")[0]) for kv in mon.get("iter", [])]
+        found = [int(kv.split(":")[0]) for kv in mon.get("final", []) if kv.split(":")[1] == "1"]
         st["max_items"] = max(st["max_items"], len(it))
+        bad = []
         if any(x not in (0, 1) for x in cnt.values()):
             bad.append(("successful inserts minus successful removals of a key is not 0 or 1", {"counts": cnt}))
-        elif sorted(it) != sorted(k for k, x in cnt.items() if x == 1):
-            bad.append(("quiescent contents differ from successful inserts minus successful removals", {"iter": it, "counts": cnt}))
+        else:
+            want = sorted(k for k, x in cnt.items() if x == 1)
+            order = (lambda l: sorted(l, key=rev64)) if fam.startswith("split") else sorted
+            if len(set(it)) != len(it):
+                bad.append(("traversal visits a key twice", {"iter": it}))
+            elif it != order(it):
+                bad.append(("traversal is not in %s order" % ("split" if fam.startswith("split") else "strictly increasing key"), {"iter": it}))
+            if sorted(it) != want:
+                bad.append(("traversal of the quiescent structure differs from the present keys (successful inserts minus successful removals)", {"iter": it, "present": want}))
+            if sorted(found) != want:
+                bad.append(("lookups at the quiescent point differ from the present keys", {"found": found, "present": want}))
+            if "size" in mon:
+                if int(mon["size"][0]) != len(want):
+                    bad.append(("size() disagrees with the contents", {"size": mon["size"][0], "present": want}))
+                if int(mon["size"][2]) != (0 if want else 1):
+                    bad.append(("empty() disagrees with the contents", {"empty": mon["size"][2], "present": want}))
+        for nm, (ok, detail) in o["struct"].items():
+            if ok or nm == "skip_towers_complete" or nm == "bronson_no_removable_routing_node":
+                continue
+            bad.append(("structural check %s fails at a quiescent point" % nm, {"detail": detail}))
+        if int((mon.get("functor_bad") or ["0"])[0]) != 0:
+            bad.append(("functor contract violated", {"count": mon["functor_bad"][0]}))
         for what, detail in bad:
             viol.append(("%s: %s (after a concurrent history)" % (name, what), {"case": c, "variant": name, "detail": detail, "events": o["events"]}, None))
     return viol
@@ -285,7 +307,7 @@ def signature_of(what):
     if "Bronson" in what and "bronson_avl_balance" in what:
         return "bronson-avl-balance-not-restored-next-to-routing-node"
     if ("MichaelList" in what or "SplitListSet" in what and "michael" in what) and "concurrent history" in what and \
-       ("traversal differs" in what or "size() disagrees" in what or "quiescent contents differ" in what or "empty() disagrees" in what):
+       "traversal of the quiescent structure differs" in what:
         return "michael_list-iterator-visits-logically-deleted"
     return None
 
